@@ -166,6 +166,44 @@ class ScriptedGenerator(np.random.Generator):
         return out
 
 
+_ENTROPY = {"base": 0, "count": 0, "patched": False, "unseeded_calls": 0}
+
+
+def own_entropy(k: int):
+    """Put the last uncontrolled entropy source behind the simulator.
+
+    * seeds the ambient numpy / stdlib RNGs from k (instead of OS entropy at process start);
+    * replaces the name ``default_rng`` inside every /repo/dreye module by a wrapper that,
+      when called *without* a seed, derives the generator from (k, call counter) instead of
+      OS entropy.  Seeded calls go straight through.
+    On a correct tree no dreye code path draws unseeded randomness when a seed is given, so
+    this changes nothing; on a tree that does, the run stays exactly replayable (and two
+    executions of the same request still differ, which is what the oracles look for).
+    """
+    k = int(k) % (2 ** 63)
+    _ENTROPY["base"] = k
+    _ENTROPY["count"] = 0
+    np.random.seed(k % (2 ** 32))
+    random.seed(k)
+    if not _ENTROPY["patched"]:
+        real = np.random.default_rng
+
+        def default_rng(seed=None):
+            if seed is None:
+                _ENTROPY["count"] += 1
+                _ENTROPY["unseeded_calls"] += 1
+                return real([_ENTROPY["base"], _ENTROPY["count"]])
+            return real(seed)
+
+        for mod in list(sys.modules.values()):
+            f = getattr(mod, "__file__", None)
+            if f and os.path.realpath(f).startswith(REPO_DREYE) and \
+                    getattr(mod, "default_rng", None) is real:
+                mod.default_rng = default_rng
+        np.random.default_rng = default_rng     # also explicit np.random.default_rng() calls
+        _ENTROPY["patched"] = True
+
+
 def ambient_perturb(k: int):
     """Disturb every ambient RNG a sloppy implementation might fall back on."""
     np.random.seed((k * 7919 + 13) % (2 ** 32))
